@@ -43,6 +43,54 @@ def run(ctx: Ctx):
     received_messages_reach_dispatch(ctx, "C08-R12", answers=False, requests=True)
     from .common_node import application_delivery_chain
     application_delivery_chain(ctx, "C08-R11")
+    # ---------------- R13 the outcome is decided for any content ------------------------------------
+    # _receive_app_request reads AVP attributes of the request (Destination-Realm, ...): a typed
+    # request has every attribute, set to None when the AVP is absent (with validation of received
+    # requests off that reaches this function).  An AttributeError / TypeError there is the
+    # catch-all's 5012 in place of the specified 3003 / 3007
+    E13 = effects_of(model)
+    ctx.rule("C08-R13", "_receive_app_request raises nothing that depends on which AVPs the request "
+                        "carries", floor=1)
+    f13 = model.cls("node.node", "Node").methods.get("_receive_app_request")
+    ctx.inst("_receive_app_request:decided-for-any-content", rule="C08-R13")
+    if f13 is not None:
+        ctx.use(f13)
+        # the realm is used as bytes (`.lower()`, `.decode()`) only where it is known to BE bytes:
+        # `hasattr(message, "destination_realm")` is true for every typed request, whose attribute
+        # is None when the AVP is absent
+        g13 = cfg_of(f13)
+        at13 = Atomizer(model, f13.module, f13.cls)
+        ctx.inst("_receive_app_request:realm-is-bytes", rule="C08-R13")
+        for n13 in g13.nodes:
+            if n13.ast is None or n13.kind not in ("stmt", "test"):
+                continue
+            uses = [x for x in ast.walk(n13.ast) if isinstance(x, ast.Call) and isinstance(x.func, ast.Attribute)
+                    and x.func.attr in ("lower", "decode", "casefold", "strip")
+                    and isinstance(x.func.value, ast.Attribute) and x.func.value.attr == "destination_realm"]
+            if not uses:
+                continue
+            fx = must_facts(g13, at13, n13)
+            known = any("destination_realm" in str(f_[0]) and (
+                (str(f_[0]).replace(" ", "").startswith("isinstance(") and f_[1] == "truthy" and f_[3] is True)
+                or (f_[1] == "is" and f_[2] is None and f_[3] is False)) for f_ in fx)
+            if not known:
+                ctx.fail("_receive_app_request:realm-is-bytes", g13.loc(n13),
+                         f"`{ast.unparse(uses[0])[:60]}` runs without the realm being known to be bytes (guards: "
+                         f"{[str(x) for x in fx if 'destination_realm' in str(x[0])][:2]}): a typed request without "
+                         f"Destination-Realm (attribute None; validation of received requests off) raises "
+                         f"AttributeError - the catch-all's 5012 instead of 3007 'realm name not present'",
+                         rule="C08-R13", expected="isinstance(getattr(message, 'destination_realm', None), bytes)",
+                         observed="hasattr() or no test")
+                break
+        for e_ in sorted(set(E13.raises(f13)) & {"AttributeError", "TypeError", "UnicodeDecodeError"}):
+            ch = E13.why(f13, e_)
+            if ch and "handle_request" in " ".join(ch):
+                continue          # what the application's handler raises is the handler's
+            ctx.fail(f"_receive_app_request:{e_}", ch[-1].split(": ")[0] if ch else f13.loc(),
+                     f"_receive_app_request can raise {e_} on the request's content "
+                     f"({ch[-1].split(': ', 1)[-1] if ch else ''}): the peer gets the catch-all 5012 instead of "
+                     f"the outcome specified for a request without (usable) Destination-Realm", rule="C08-R13",
+                     steps=ch)
     R = RecvModel(ctx)
     g, at, msg, conn, nc = R.g, R.at, R.msg, R.conn, R.nc
     E = effects_of(model)
